@@ -125,6 +125,7 @@ def run_case(case, rec):
         qs = np.exp(rng.uniform(math.log(0.1/size), math.log(20.0/size), case["nq"]))
     N = (64 if "paracrystal" in name else 48) if asym else 128
     decided = 0
+    decided_at = []
     # bound the cost: the model's own 1-D quadrature (and its finer re-run) dominates for doubly integrated models
     per = sas.eval_cost(i, "1d")
     budget = 6.0
@@ -159,6 +160,7 @@ def run_case(case, rec):
         tol = 10*max(ref_err, mod_err) + 1e-7*abs(a2)
         ok = abs(one - a2) <= tol
         decided += 1
+        decided_at.append((float(q), tol/abs(a2)))
         rec.bucket("deciding")
         key = None
         if name in ("core_shell_bicelle_elliptical", "core_shell_bicelle_elliptical_belt_rough"):
@@ -177,10 +179,11 @@ def run_case(case, rec):
     if decided == 0:
         rec.count("cases_without_deciding_point")
     # public API: 1-D call_kernel vs the sin-weighted average of 2-D call_kernel values (axially symmetric models)
+    # at a q where both quadratures were seen to converge (the statement's restriction), with the same tolerance
     if not asym and decided and k % 2 == 0:
-        q = float(qs[0])
+        q, rtol = decided_at[0]
         model = sas.build(name)
-        x, w = gl(128)
+        x, w = gl(256)
         al = np.arccos(x)                # angle between q and the c axis
         qx, qy = q*np.cos(al), q*np.sin(al)        # theta = 90, phi = 0 puts the c axis along x
         p2 = dict(pars, theta=90.0, phi=0.0, scale=1.0, background=0.0)
@@ -188,9 +191,10 @@ def run_case(case, rec):
         avg = float(np.sum(w*I2)/2.0)
         I1 = float(direct_model.call_kernel(model.make_kernel([np.array([q])]), dict(pars, scale=1.0, background=0.0))[0])
         one_hi = None
-        tol = 1e-2*abs(avg)
+        tol = max(rtol, 1e-6)*abs(avg)
         rec.check("api_1d_is_average_of_2d", abs(I1 - avg) <= max(tol, 0) if np.isfinite(avg) else True,
-                  {"model": name, "pars": pars, "q": q, "one_d": I1, "average_of_2d": avg, "rel_err": abs(I1 - avg)/abs(avg)},
+                  {"model": name, "pars": pars, "q": q, "one_d": I1, "average_of_2d": avg, "rel_err": abs(I1 - avg)/abs(avg),
+                   "rtol": max(rtol, 1e-6)},
                   key="C12/%s/rim-of-1d-path-is-not-the-ellipse-of-2d-path" % name
                   if name.startswith("core_shell_bicelle_elliptical") else None)
     if k == 0:
